@@ -139,6 +139,10 @@ func c27Fmt(v float64) string {
 // written by c27JudgeDef, read into the evidence.
 var c27WorstRatioPermille atomic.Int64
 
+// points of the infinity cases: [0] infinite result judged, [1] finite result judged,
+// [2] NaN-by-definition judged, [3] scoped out (min/max_over_time over infinities of one sign)
+var c27InfPoints [4]atomic.Int64
+
 type c27Mismatch struct {
 	class  string
 	detail string
@@ -213,9 +217,27 @@ func c27JudgeDef(c c27Case, st *c27Store, sp c27DataSpec, eng c27EngResult) (mm 
 				continue
 			}
 			want := rs.vals[off+i]
+			if c27IsArithNaN(want) {
+				// points are present and the definition yields NaN: judged, the engine must say NaN
+				judged++
+				c27InfPoints[2].Add(1)
+				if es != nil && !math.IsNaN(es.vals[i]) && len(mm) < 3 {
+					mm = append(mm, c27Mismatch{"value", fmt.Sprintf("series {%s} t=%d: engine %s, definition NaN (points are present, e.g. +Inf and -Inf under sum)", key, t, c27Fmt(es.vals[i]))})
+				}
+				continue
+			}
+			if c27IsScopedNaN(want) {
+				c27InfPoints[3].Add(1)
+				continue
+			}
 			if math.IsNaN(want) {
 				notJudged++
 				continue
+			}
+			if math.IsInf(want, 0) {
+				c27InfPoints[0].Add(1)
+			} else if c.inf {
+				c27InfPoints[1].Add(1)
 			}
 			anyJudged = true
 			judged++
@@ -492,6 +514,10 @@ func TestVerifC27(t *testing.T) {
 	c27Canonical(r, 5, 10)
 	defer func() {
 		r.SetCounter("def.large_offset.worst_error_over_tolerance_permille", c27WorstRatioPermille.Load())
+		r.SetCounter("def.inf.points_judged_infinite_result", c27InfPoints[0].Load())
+		r.SetCounter("def.inf.points_judged_finite_result", c27InfPoints[1].Load())
+		r.SetCounter("def.inf.points_judged_nan_by_definition", c27InfPoints[2].Load())
+		r.NotJudged("min_over_time-of-only-plus-Inf / max_over_time-of-only-minus-Inf (engine yields ±MaxFloat64)", c27InfPoints[3].Load())
 	}()
 	r.Parallel(workers, "cases", func(w *verifkit.Worker) {
 		for di := w.Index; di < nData; di += workers {
